@@ -968,39 +968,58 @@ func ruleDeferredQueueDetached(c *core.Ctx) {
 			sel, ok := ast.Unparen(e).(*ast.SelectorExpr)
 			return ok && sel.Sel.Name == "afterStream"
 		}
+		// the loop whose body puts objects, in either loop form
 		var loop *core.V
+		var drained []ast.Expr // what the loop takes its elements from
 		for _, h := range loopHeads(g) {
-			if h.Cond.Range == nil {
-				continue
-			}
-			// the loop whose body puts objects
-			hasPut := false
-			for _, cs := range core.CallsIn(info, h.Cond.Range.Body, false) {
-				if cs.Key == "pdf.(*Writer).Put" {
-					hasPut = true
+			body := g.ReachFrom(succ(h, core.EdgeTrue), true, core.AvoidVs(h))
+			var puts []*ast.CallExpr
+			for v := range body {
+				if v.AST != nil {
+					puts = append(puts, core.CallsTo(info, v.AST, false, "pdf.(*Writer).Put")...)
 				}
 			}
-			if hasPut {
-				loop = h
+			if len(puts) == 0 {
+				continue
+			}
+			loop = h
+			drained = nil
+			if h.Cond.Range != nil {
+				drained = append(drained, h.Cond.Range.X)
+			} else {
+				for _, call := range puts {
+					for _, a := range call.Args {
+						ast.Inspect(a, func(n ast.Node) bool {
+							if ix, ok := n.(*ast.IndexExpr); ok {
+								drained = append(drained, ix.X)
+							}
+							return true
+						})
+					}
+				}
 			}
 		}
-		if loop == nil {
+		if loop == nil || len(drained) == 0 {
 			core.Undecided("drain loop not found")
 		}
-		rs := loop.Cond.Range
-		o.At(fn.Site(rs, "drain loop"))
-		o.Count(1)
-		if isQueue(rs.X) {
-			o.FailAt(fn.Site(rs, ""), "%s: the drain loop ranges over the queue field itself: a queued stream object re-enters Close, which sees the same queue and writes its first element again", c.Prog.Pos(rs.Pos()))
-			return
+		var loopNode ast.Node = loop.AST
+		if loop.Cond.Range != nil {
+			loopNode = loop.Cond.Range
 		}
-		// the local it ranges over was taken from the queue, and the queue is reset before the loop
-		src := core.ObjOf(info, rs.X)
+		o.At(fn.Site(loopNode, "drain loop"))
+		o.Count(1)
 		fromQueue := false
-		if src != nil {
-			for _, d := range core.AssignsTo(info, fn.Decl, src) {
-				if as, ok := d.(*ast.AssignStmt); ok && len(as.Rhs) == 1 && isQueue(as.Rhs[0]) {
-					fromQueue = true
+		for _, x := range drained {
+			if isQueue(x) {
+				o.FailAt(fn.Site(x, ""), "%s: the drain loop runs over the queue field itself: a queued stream object re-enters Close, which sees the same queue and writes its first element again", c.Prog.Pos(x.Pos()))
+				return
+			}
+			// the local it runs over was taken from the queue
+			if src := core.ObjOf(info, x); src != nil {
+				for _, d := range core.AssignsTo(info, fn.Decl, src) {
+					if as, ok := d.(*ast.AssignStmt); ok && len(as.Rhs) == 1 && isQueue(as.Rhs[0]) {
+						fromQueue = true
+					}
 				}
 			}
 		}
